@@ -26,6 +26,7 @@ package cert
 //@   requires awf(c)
 //@   ensures [quorum] result == nil && tc.view != 0 ==> tc.signature != nil && hotstuff.setlen(hotstuff.parts(tc.signature)) >= quorum(c)
 //@   ensures [content] result == nil && tc.view != 0 ==> (forall id hotstuff.ID :: hotstuff.setmem(hotstuff.parts(tc.signature), id) ==> crypto.sigvalid(c.Base, tc.signature, id, hotstuff.viewcontent(tc.view)))
+//@   ensures [tcok] result == nil ==> tcok(c, tc)
 //@   modifies alloc
 
 //@ func (*Authority).VerifyPartialCert property C02,C10,C20
@@ -53,6 +54,7 @@ package cert
 //@   ensures [quorum] err == nil ==> aggQC.sig != nil && hotstuff.setlen(hotstuff.parts(aggQC.sig)) >= quorum(c)
 //@   ensures [content] err == nil ==> (forall id hotstuff.ID :: hotstuff.setmem(hotstuff.parts(aggQC.sig), id) ==> has(aggQC.qcs, id) && crypto.sigvalid(c.Base, aggQC.sig, id, hotstuff.tmcontent(id, aggQC.view, true, aggQC.qcs[id])))
 //@   ensures [highqc-valid] err == nil ==> qcok(c, highQC)
+//@   ensures [aggok] err == nil ==> aggok(c, aggQC)
 //@   ensures [inv] blockchain.binv(c.blockchain) && blockchain.bmaps(c.blockchain)
 //@   loop 0 invariant [msgs] forall id hotstuff.ID :: has(messages, id) ==> has(aggQC.qcs, id) && content(messages[id]) == hotstuff.tmcontent(id, aggQC.view, true, aggQC.qcs[id])
 //@   loop 0 invariant [fresh] fresh(qcs) && messages != nil && fresh(messages)
@@ -65,3 +67,7 @@ package cert
 //@   ensures [qc-valid] result == nil ==> qcok(c, proposal.Block.cert)
 //@   ensures [inv] blockchain.binv(c.blockchain) && blockchain.bmaps(c.blockchain)
 //@   modifies c.blockchain.blocks[*], c.blockchain.blockAtHeight[*], c.blockchain.pendingFetch[*], c.blockchain.eventLoop.handlers[*], alloc
+
+// tcok / aggok: what an accepted timeout certificate / aggregate certificate guarantees.
+//@ pred tcok(c *Authority, tc hotstuff.TimeoutCert) = tc.view == 0 || (tc.signature != nil && hotstuff.setlen(hotstuff.parts(tc.signature)) >= quorum(c) && (forall id hotstuff.ID :: hotstuff.setmem(hotstuff.parts(tc.signature), id) ==> crypto.sigvalid(c.Base, tc.signature, id, hotstuff.viewcontent(tc.view))))
+//@ pred aggok(c *Authority, agg hotstuff.AggregateQC) = agg.sig != nil && hotstuff.setlen(hotstuff.parts(agg.sig)) >= quorum(c) && (forall id hotstuff.ID :: hotstuff.setmem(hotstuff.parts(agg.sig), id) ==> has(agg.qcs, id) && crypto.sigvalid(c.Base, agg.sig, id, hotstuff.tmcontent(id, agg.view, true, agg.qcs[id])))
